@@ -32,6 +32,7 @@ pub fn pred_accepts(p: Pred, from: usize, to: usize, l: &PLabel) -> bool {
         Pred::ToParity(b) => (to % 2 == 1) == b,
         Pred::FromParity(b) => (from % 2 == 1) == b,
         Pred::PanicAt(_) => true,
+        Pred::Nested(b) => !b || (from + to) % 3 != 0,
     }
 }
 
@@ -143,6 +144,13 @@ impl<const N: usize> Exec<N> {
         if closure.len() > 14 {
             return Ok(Applied::Skipped);
         }
+        if matches!(pred, Pred::Nested(_)) {
+            // the inner slices must be inside C13's domain too
+            match m.closure(v, &|_, _, _| true) {
+                Some(c) if c.len() <= 14 => self.stats.bump("probe.slice_nested_in_predicate"),
+                _ => return Ok(Applied::Skipped),
+            }
+        }
         let probes = self.view.probe_labels();
         let mut first: Option<crate::obs::Obs> = None;
         let mut kept: Option<Sodg<N>> = None;
@@ -170,7 +178,12 @@ impl<const N: usize> Exec<N> {
                 if pred == Pred::All && seed % 2 == 0 {
                     g.slice(v)
                 } else {
-                    g.slice_some(v, |f, t, l| pred_accepts(pred, f, t, &PLabel::from_label(&l)))
+                    g.slice_some(v, |f, t, l| {
+                        if matches!(pred, Pred::Nested(_)) {
+                            drop(g.slice(t));
+                        }
+                        pred_accepts(pred, f, t, &PLabel::from_label(&l))
+                    })
                 }
             });
             let sl = match r {
@@ -353,9 +366,15 @@ impl<const N: usize> Exec<N> {
         let Some(new) = merge_precheck(&gi.m, &hm, left, right) else {
             return Ok(Applied::Skipped);
         };
-        // enough absent ids at or above the allocator position (model's and hook's)
+        // enough absent ids at or above the allocator position (model's and hook's); a graph that
+        // came out of load() and was not touched since has every absent id to give ("the id
+        // allocator restarts from the lowest absent id", C08), whatever the hook says
         let model_pos = gi.m.returned.iter().next_back().map_or(0, |x| x + 1);
-        let pos = model_pos.max(gi.next_v);
+        let fresh_from_load = gi.origin == crate::view::Origin::Loaded && gi.age == 0;
+        let pos = if fresh_from_load { model_pos } else { model_pos.max(gi.next_v) };
+        if fresh_from_load && gi.next_v > model_pos {
+            self.stats.bump("probe.merge_after_load_hook_allocator_ahead");
+        }
         let room = (pos..gi.m.cap).filter(|v| !gi.m.is_present(*v)).count();
         if room < new {
             return Ok(Applied::Skipped);
